@@ -98,7 +98,8 @@ func extractFromPath(path *Path, data []byte, optFuncs ...DecodeOptionFunc) ([][
 	ctx.Buf = src
 	ctx.Option.Flags = 0
 	ctx.Option.Flags |= decoder.PathOption
-	ctx.Option.Path = path.path
+	p := *path.path // evaluation advances p.node; keep the shared Path untouched
+	ctx.Option.Path = &p
 	for _, optFunc := range optFuncs {
 		optFunc(ctx.Option)
 	}
